@@ -308,11 +308,20 @@ fn children(parent: &Node, old: &HashSet<u64>) -> Sexp {
 pub fn run(c: &Sexp) -> Sexp {
     match std::panic::catch_unwind(std::panic::AssertUnwindSafe(|| run_case(c))) {
         Ok(v) => v,
-        Err(_) => Lst(vec![Num(-9)]),
+        Err(e) => {
+            if std::env::var_os("H_DOM_PANIC_MSG").is_some() {
+                let msg = e.downcast_ref::<String>().cloned().or_else(|| e.downcast_ref::<&str>().map(|s| s.to_string()));
+                eprintln!("panic: {msg:?}");
+            }
+            Lst(vec![Num(-9)])
+        }
     }
 }
 
 fn run_case(c: &Sexp) -> Sexp {
+    if c.at(2).at(0).num() == 30 {
+        return crate::c03t::run_case(c); // statically typed templates
+    }
     crate::util::install_parser(); // InertElement
     let (npre, npost) = (c.at(0).num() as usize, c.at(1).num() as usize);
     let (parent, marker) = parent_with_siblings(npre, npost);
